@@ -192,7 +192,7 @@ def t_context(rec, seed, tier, cid):
         rec.count("context-absent-on-host")
         return
     schemes = list(ctx.schemes())
-    per = {"quick": 20, "thorough": 200}[tier]
+    per = {"quick": 40, "thorough": 200}[tier]
     for idx, scheme in enumerate(schemes):
         f = table.T.get(scheme)
         if f is None:
